@@ -32,12 +32,23 @@ def gen(seed, iters=6):
     lines['L_inl'] = len(L)
     e('    q.wrapping_add(1)')
     e('}')
+    e('#[inline(never)]')
+    e('fn keep(p: *mut u64) -> u64 { unsafe { std::ptr::read_volatile(p) } }')
+    e('#[inline(never)]')
+    e('fn sv(i: u64) -> u64 {')
+    e('    let mut z = i ^ 1;')
+    e('    let p = &mut z as *mut u64;')
+    e('    keep(p);')
+    lines['L_sv'] = len(L)
+    e('    let r = unsafe { std::ptr::read_volatile(p) }.wrapping_add(i);')
+    e('    r.wrapping_mul(3)')
+    e('}')
     e('// a comment block without code')
     e('//')
     e('//')
     lines['nocode'] = len(L) - 1
     e('fn main() {')
-    e('    let mut acc = 0u64;')
+    e('    let mut acc = sv(5);')
     e('    let mut i = 0u64;')
     e(f'    while i < {iters} {{')
     e('        let flag = i % 2 == 0;')
